@@ -1248,4 +1248,10 @@ pub(crate) const MAX_PUBKEY_SIZE: usize = 97;""")]),
     dict(name='c03-p384-kem-id-of-p256', expect=[('C03', 'R03.8'), ('C07', 'R07.7')],
          note='DHKEM(P-384) announces kem_id 0x0010 (P-256\'s): every P-384 shared secret is labelled with the wrong suite id',
          edits=[('src/kem/dhkem.rs', "    0x0011,\n", "    0x0010,\n")]),
+    dict(name='c03-concat-fn-truncates-pieces', expect=[('C03', 'R03.2'), ('C02', 'R02.5')], patch=BP + 'B23-2.diff',
+         note='const-generic concat function (loop over the pieces) that caps every piece at 64 bytes: NIST public keys are cut in kem_context',
+         edits=[(UTIL, "        unused_space = write_to_buf(unused_space, slice);", "        unused_space = write_to_buf(unused_space, &slice[..slice.len().min(64)]);")]),
+    dict(name='c03-concat-fn-skips-last-piece', expect=[('C03', 'R03.2')], patch=BP + 'B23-2.diff',
+         note='const-generic concat function whose loop leaves out the last piece (pkS / the identity DH)',
+         edits=[(UTIL, "    for slice in slices {", "    for slice in &slices[..slices.len() - 1] {")]),
 ]
